@@ -189,6 +189,23 @@ class DictWriterModel:
         extra = [k for k in d if k not in self.fieldnames]
         if extra:
             raise PyRaise(ValueError(f"dict contains fields not in fieldnames: {extra!r}"))
+        if getattr(self.fp, "errors", "surrogateescape") == "strict":
+            # a text file opened with the default error handler cannot encode lone surrogates (undecodable bytes kept by surrogateescape)
+            from .strings import str_of
+
+            for k in self.fieldnames:
+                v = d.get(k, "")
+                t = v if isinstance(v, str) else None
+                if t is None and not isinstance(self.it.unbase(v), Sym):
+                    try:
+                        t = str_of(self.it, v)
+                    except Exception:
+                        t = None
+                if isinstance(t, str):
+                    try:
+                        t.encode("utf-8")
+                    except UnicodeEncodeError as e:
+                        raise PyRaise(e)
         self.fp.write(CsvRow([d.get(k, "") for k in self.fieldnames], False, self.lineterminator))
 
 
@@ -497,6 +514,7 @@ def install(it):
             raise Unsupported("open with a symbolic mode")
         writing = any(c in mode for c in "wax")
         cur = it_.vfs.get(p)
+        errors = kw.get("errors") or (a[2] if len(a) > 2 else None) or "strict"  # open(file, mode, buffering, encoding, errors, ...)
         if writing:
             if cur is not None and not isinstance(cur, AbsFile):
                 raise Unsupported("open() of a database path")
@@ -508,6 +526,7 @@ def install(it):
             if cur is not None and "w" in mode:
                 it_.vfs_events.append(("overwrite", p, list(cur.content())))
             f = AbsFile(it_, [] if (cur is None or "w" in mode) else cur.content(), name=p, mode=mode)
+            f.errors = errors
             it_.vfs[p] = f
             return f
         if cur is None:
